@@ -42,9 +42,14 @@ type kvElection struct {
 	isLeader atomic.Bool
 	leaderID atomic.Value
 	token    atomic.Value
-	revision atomic.Uint64
+	revision atomic.Uint64 // revision of this instance's latest successful write: what the next heartbeat presents
 	state    atomic.Value
-	mu       sync.RWMutex
+	// observedRevision is the revision of the record last seen while not
+	// leading (watch events, periodic check). It is reported by Status() for
+	// followers and is never used for a write.
+	observedRevision atomic.Uint64
+
+	mu sync.RWMutex
 
 	lastHeartbeat   atomic.Value
 	lastTransition  atomic.Value
@@ -450,7 +455,7 @@ func (e *kvElection) attemptPriorityTakeover(payloadBytes []byte) error {
 
 	if e.cfg.Priority <= currentPayload.Priority {
 		e.leaderID.Store(currentPayload.ID)
-		e.revision.Store(entry.Revision())
+		e.observedRevision.Store(entry.Revision())
 		return fmt.Errorf("current leader has equal or higher priority: %d >= %d", currentPayload.Priority, e.cfg.Priority)
 	}
 
@@ -823,14 +828,22 @@ func (e *kvElection) Status() ElectionStatus {
 		}
 	}
 
+	isLeader := e.isLeader.Load()
+	revision := e.revision.Load()
+	if !isLeader {
+		if observed := e.observedRevision.Load(); observed != 0 {
+			revision = observed
+		}
+	}
+
 	return ElectionStatus{
 		State:          state,
-		IsLeader:       e.isLeader.Load(),
+		IsLeader:       isLeader,
 		LeaderID:       leaderID,
 		Token:          token,
 		LastHeartbeat:  lastHeartbeat,
 		LastTransition: lastTransition,
-		Revision:       e.revision.Load(),
+		Revision:       revision,
 	}
 }
 
